@@ -18,6 +18,9 @@ class Edge:
     strength: str  # 'strong' | 'weak' | 'ext' | 'local' | 'unknown'
     kind: str  # 'call' | 'init' | 'callback' | 'protocol' | 'virtual'
     ext: Optional[str] = None
+    recv: Optional[ClassInfo] = None  # static class of the receiver (method calls)
+    via_self: bool = False  # receiver is the caller's own `self`/`cls`
+    method: Optional[str] = None
 
     def __repr__(self) -> str:
         c = self.callee.qualname if self.callee else (self.ext or "?")
@@ -40,10 +43,133 @@ class CallGraph:
 
     # -------------------------------------------------------------- building
     def _add(self, e: Edge) -> None:
+        self._annotate(e)
         self.edges.append(e)
         self.out.setdefault(e.caller, []).append(e)
         if e.callee is not None:
             self.inc.setdefault(e.callee, []).append(e)
+
+    def _annotate(self, e: Edge) -> None:
+        """Record receiver class / self-ness for method and protocol calls."""
+        if e.callee is None or e.callee.cls is None or e.kind in ("init", "callback"):
+            return
+        n = e.call
+        recv_expr = None
+        if isinstance(n, ast.Call) and isinstance(n.func, ast.Attribute):
+            recv_expr = n.func.value
+            e.method = n.func.attr
+            if isinstance(n.func.value, ast.Call) and isinstance(n.func.value.func, ast.Name) \
+                    and n.func.value.func.id == "super":
+                return
+        elif isinstance(n, ast.Call) and isinstance(n.func, ast.Name) and n.func.id == "len" and n.args:
+            recv_expr, e.method = n.args[0], "__len__"
+        elif isinstance(n, ast.Subscript):
+            recv_expr = n.value
+            e.method = "__getitem__" if isinstance(n.ctx, ast.Load) else "__setitem__"
+        elif isinstance(n, (ast.For, ast.comprehension)):
+            recv_expr, e.method = n.iter, "__iter__"
+        elif isinstance(n, ast.Attribute):
+            recv_expr, e.method = n.value, e.callee.name
+        else:
+            return
+        if e.method is None:
+            e.method = e.callee.name
+        t = self.typer.type_of(recv_expr, e.caller)
+        if isinstance(t, tuple) and t[0] == "class":
+            t = t[1]
+        if isinstance(t, ClassInfo):
+            e.recv = t
+        c = e.caller
+        if isinstance(recv_expr, ast.Name) and c.cls is not None and c.params \
+                and recv_expr.id == c.params[0] and not c.is_staticmethod():
+            e.via_self = True
+
+    def reachable_cs(self, entries, exclude_kinds=("callback",)):
+        """Receiver-class-sensitive reachability over strong edges.
+
+        entries: iterable of (Def, ClassInfo|None).  A call through the caller's own
+        `self` is dispatched against the *context* class (the class of the object the
+        entry was invoked on) and its subclasses only, not against every subclass of
+        the class that happens to define the calling method.
+        Returns (list of (Def, ctx), adjacency dict)."""
+        seen = {}
+        order = []
+        adj = {}
+        stack = [(d, k if k is not None else d.cls) for d, k in entries]
+        while stack:
+            node = stack.pop()
+            if node in seen:
+                continue
+            seen[node] = True
+            order.append(node)
+            d, K = node
+            outs = []
+            for e in self.out.get(d, []):
+                if e.callee is None or e.strength != "strong" or e.kind in exclude_kinds:
+                    continue
+                cal = e.callee
+                if e.method is not None and cal.cls is not None and e.kind != "init":
+                    ctx_cls = K if (e.via_self and K is not None) else e.recv
+                    if ctx_cls is not None:
+                        valid = {id(m) for m, _ in self._method_targets(ctx_cls, e.method)}
+                        if id(cal) not in valid and valid:
+                            continue
+                        nk = ctx_cls if ctx_cls.is_subclass_of(cal.cls) else cal.cls
+                    else:
+                        nk = cal.cls
+                else:
+                    nk = cal.cls if cal.cls is not None else (K if cal.parent is not None else None)
+                    # nested defs keep the context of their enclosing method
+                    if cal.cls is None and cal.parent is not None:
+                        nk = K
+                outs.append((cal, nk))
+            adj[node] = outs
+            stack.extend(outs)
+        return order, adj
+
+    def cycles_cs(self, entries, exclude_kinds=("callback",)):
+        order, adj = self.reachable_cs(entries, exclude_kinds)
+        index, low, onst, st, res = {}, {}, set(), [], []
+        counter = [0]
+        for root in order:
+            if root in index:
+                continue
+            work = [(root, iter(adj.get(root, [])))]
+            index[root] = low[root] = counter[0]
+            counter[0] += 1
+            st.append(root)
+            onst.add(root)
+            while work:
+                v, it = work[-1]
+                adv = False
+                for w in it:
+                    if w not in index:
+                        index[w] = low[w] = counter[0]
+                        counter[0] += 1
+                        st.append(w)
+                        onst.add(w)
+                        work.append((w, iter(adj.get(w, []))))
+                        adv = True
+                        break
+                    elif w in onst:
+                        low[v] = min(low[v], index[w])
+                if adv:
+                    continue
+                work.pop()
+                if work:
+                    u = work[-1][0]
+                    low[u] = min(low[u], low[v])
+                if low[v] == index[v]:
+                    comp = []
+                    while True:
+                        w = st.pop()
+                        onst.discard(w)
+                        comp.append(w)
+                        if w is v:
+                            break
+                    if len(comp) > 1 or v in adj.get(v, []):
+                        res.append([d for d, _ in comp])
+        return order, res
 
     def _method_targets(self, recv: ClassInfo, name: str, virtual: bool = True) -> list[tuple[Def, str]]:
         out = []
